@@ -330,3 +330,82 @@ func TestVerifBuildFunc(t *testing.T) {
 	}
 	t.Logf("build-func scenarios run: %d, failing: %d", n, failures)
 }
+
+type rtStringer struct{ s string }
+
+func (s rtStringer) String() string { return s.s }
+
+// TestVerifRoundTripInterfaces: values whose declared type is an interface
+// (error, fmt.Stringer, interface{}) and whose Value holds a concrete dynamic
+// value — named and type-only, in lifted and struct form — survive
+// SignatureValues/FromSignature, and a built function hands them on.
+func TestVerifRoundTripInterfaces(t *testing.T) {
+	ifaces := []struct {
+		typ reflect.Type
+		val interface{}
+	}{
+		{reflect.TypeOf((*fmt.Stringer)(nil)).Elem(), rtStringer{"hello"}},
+		{reflect.TypeOf((*error)(nil)).Elem(), errors.New("payload")},
+		{reflect.TypeOf((*interface{})(nil)).Elem(), 42},
+	}
+	for _, it := range ifaces {
+		for _, name := range []string{"", "v"} {
+			for _, withOther := range []bool{false, true} {
+				desc := fmt.Sprintf("interface value type=%v name=%q other=%v", it.typ, name, withOther)
+				spec := []Value{{Name: name, Type: it.typ}}
+				if withOther {
+					spec = append(spec, Value{Name: "n", Type: reflect.TypeOf(0)})
+				}
+				vs, err := NewValueSet(spec)
+				if err != nil {
+					t.Errorf("FAILING-INPUT roundtrip %s: NewValueSet failed: %v", desc, err)
+					continue
+				}
+				get := func(s *ValueSet) *Value {
+					if name != "" {
+						return s.Named(name)
+					}
+					return s.Typed(it.typ)
+				}
+				if get(vs) == nil {
+					t.Errorf("FAILING-INPUT roundtrip %s: value not found", desc)
+					continue
+				}
+				get(vs).Value = reflect.ValueOf(it.val)
+				if err := vs.FromSignature(vs.SignatureValues()); err != nil {
+					t.Errorf("FAILING-INPUT roundtrip %s: FromSignature failed: %v", desc, err)
+					continue
+				}
+				if v := get(vs); v == nil || !v.Value.IsValid() || !v.Value.CanInterface() || v.Value.Interface() != it.val {
+					t.Errorf("FAILING-INPUT roundtrip %s: the stored value was not restored by FromSignature(SignatureValues())", desc)
+				}
+				// as the output of a built function
+				out, err := NewValueSet([]Value{{Name: name, Type: it.typ}})
+				if err != nil {
+					continue
+				}
+				f, err := BuildFunc(nil, out, func(in, out *ValueSet) error {
+					get(out).Value = reflect.ValueOf(it.val)
+					return nil
+				})
+				if err != nil {
+					t.Errorf("FAILING-INPUT roundtrip %s: BuildFunc failed: %v", desc, err)
+					continue
+				}
+				r := f.Call(Logger(hclog.NewNullLogger()))
+				if r.Err() != nil {
+					t.Errorf("FAILING-INPUT roundtrip %s: built function failed: %v", desc, r.Err())
+					continue
+				}
+				get(out).Value = reflect.Value{}
+				if err := out.FromResult(r); err != nil {
+					t.Errorf("FAILING-INPUT roundtrip %s: FromResult failed: %v", desc, err)
+					continue
+				}
+				if v := get(out); v == nil || !v.Value.IsValid() || v.Value.Interface() != it.val {
+					t.Errorf("FAILING-INPUT roundtrip %s: the caller of the built function did not get the value its callback produced", desc)
+				}
+			}
+		}
+	}
+}
